@@ -18,6 +18,7 @@ CONSTANTS D,          \* dimension 2..4 (3 for kind G)
           Scalars,    \* scalar arguments
           Dens,       \* input denominators: {1} or {1, 2} (float/double inputs a/den)
           GenKinds,   \* subset of {"B","S","U","I","G"}
+          FirstA,     \* values of the first component of the first vector (splits a big lattice over several TLC runs)
           MatEntries, \* entries of the affine maps (kind G)
           Stride, Seed \* kind G: every Stride-th matrix, offset Seed % Stride
 
@@ -30,10 +31,16 @@ LatB2 == {-1, 2}
 LatB4 == {-2, -1, 1, 2}
 LatB3 == {-2, 0, 1}
 Lat13 == 1 .. 3
+One_m2 == {-2}
+One_m1 == {-1}
+One_z0 == {0}
+One_p1 == {1}
+One_p2 == {2}
 Mat11 == -1 .. 1
 Mat12 == -1 .. 2
 
 Vecs(S) == [1 .. D -> S]
+VecsA == {a \in Vecs(CompsA) : a[1] \in FirstA}
 Tup(f)  == [i \in 1 .. D |-> f[i]]
 ZeroD   == [i \in 1 .. D |-> 0]
 NoZero(v) == \A i \in 1 .. D : v[i] # 0
@@ -47,14 +54,14 @@ Case(k, a, b, s, den, sep, g) ==
    ty |-> TypesFor(a, b, s, den), txt |-> IF k = "I" THEN Seps[sep] \o StreamText(VOver(a, den), Seps[sep]) ELSE ""]
 
 CasesB == { Case("B", Tup(a), Tup(b), 0, den, 0, IF NoZero(b) THEN <<"ring", "div">> ELSE <<"ring">>) :
-              a \in Vecs(CompsA), b \in Vecs(CompsB), den \in Dens }
+              a \in VecsA, b \in Vecs(CompsB), den \in Dens }
 CasesS == { Case("S", Tup(a), ZeroD, s, den, 0, IF s # 0 THEN <<"ring", "sdiv">> ELSE <<"ring">>) :
-              a \in Vecs(CompsA), s \in Scalars, den \in Dens }
+              a \in VecsA, s \in Scalars, den \in Dens }
 GroupsU(a) == <<"ring">> \o (IF a # ZeroD THEN <<"nz">> ELSE <<>>)
                          \o (IF D = 4 /\ a[4] # 0 THEN <<"hom">> ELSE <<>>)
                          \o (IF NonNeg(a) THEN <<"cvu">> ELSE <<>>)
-CasesU == { Case("U", Tup(a), ZeroD, 0, den, 0, GroupsU(Tup(a))) : a \in Vecs(CompsA), den \in Dens }
-CasesI == { Case("I", Tup(a), ZeroD, 0, den, sep, <<"ring">>) : a \in Vecs(CompsA), den \in Dens, sep \in 1 .. Len(Seps) }
+CasesU == { Case("U", Tup(a), ZeroD, 0, den, 0, GroupsU(Tup(a))) : a \in VecsA, den \in Dens }
+CasesI == { Case("I", Tup(a), ZeroD, 0, den, sep, <<"ring">>) : a \in VecsA, den \in Dens, sep \in 1 .. Len(Seps) }
 
 (* ------------------------------ kind G --------------------------------- *)
 Shapes == {"tet", "cube", "prism"}
@@ -70,7 +77,8 @@ Det(m) == m[1][1] * (m[2][2] * m[3][3] - m[2][3] * m[3][2])
 MatIndex(m) == LET e(i, j) == m[i][j] + 2 IN      \* entries in -2..2 -> a number in base 5 (below 2^21)
    ((((((((e(1,1) * 5 + e(1,2)) * 5 + e(1,3)) * 5 + e(2,1)) * 5 + e(2,2)) * 5 + e(2,3)) * 5 + e(3,1)) * 5 + e(3,2)) * 5) + e(3,3)
 MatHash(m) == ((MatIndex(m) % 65521) * 32749) % 65521
-Mats == { m \in [1 .. 3 -> Row] : Det(m) # 0 /\ (MatHash(m) + Seed) % Stride = 0 }
+Mats == IF "G" \notin GenKinds THEN {}
+        ELSE { m \in [1 .. 3 -> Row] : Det(m) # 0 /\ (MatHash(m) + Seed) % Stride = 0 }
 Shifts == { <<0, 0, 0>>, <<1, -2, 3>> }
 Img(m, t, p) == [i \in 1 .. 3 |-> m[i][1] * p[1] + m[i][2] * p[2] + m[i][3] * p[3] + t[i]]
 CaseG(sh, mt, vt, m, t) ==
